@@ -2557,3 +2557,213 @@ func ruleFlushConsumesPending(c *eng.Ctx) {
 		c.Undec(R, "rag.(*Chunker).splitSectionByParagraphs#flush", host.Pos(), "no flush closure found (one that takes the builder's content and resets it)")
 	}
 }
+
+// R2.20 [C02, C07]
+func ruleUnitDecoderReads(c *eng.Ctx) {
+	const R = "R2.20-UNIT-DECODER-READS"
+	c.Rule(R, "the two-byte decoders of the font package (DecodeUTF16BE, DecodeUTF16LE and their siblings that walk a byte slice in steps of two) read data[i+k] only where i+k < len(data) follows from the conditions on the way: from a test i+c < len(data) with c >= k, or — the cursor being even — from such a test with c = k-1 together with the input having been brought to an even length before the loop. A surrogate pair read as data[i+3] behind i+2 < len(data) is a read past the end for input of odd length unless the padding is there", 4, 0)
+	for _, fn := range c.P.ModuleFuncs() {
+		if fn.Pkg == nil || fn.Blocks == nil || fn.Parent() != nil || eng.ShortPath(fn.Pkg.Pkg.Path()) != "font" {
+			continue
+		}
+		// a byte-slice parameter walked by an induction variable in steps of two
+		var data *ssa.Parameter
+		for _, p := range fn.Params {
+			if sl, ok := p.Type().Underlying().(*types.Slice); ok {
+				if b, ok := sl.Elem().Underlying().(*types.Basic); ok && b.Kind() == types.Uint8 {
+					data = p
+				}
+			}
+		}
+		if data == nil {
+			continue
+		}
+		isData := func(v ssa.Value) bool {
+			seen := map[ssa.Value]bool{}
+			var walk func(v ssa.Value) bool
+			walk = func(v ssa.Value) bool {
+				if v == nil || seen[v] {
+					return false
+				}
+				seen[v] = true
+				switch x := v.(type) {
+				case *ssa.Parameter:
+					return x == data
+				case *ssa.Phi:
+					for _, e := range x.Edges {
+						if walk(e) {
+							return true
+						}
+					}
+				case *ssa.Call:
+					if eng.CalleeName(x) == "builtin:append" {
+						return walk(x.Call.Args[0])
+					}
+				}
+				return false
+			}
+			return walk(v)
+		}
+		var cursor *ssa.Phi
+		evenSteps := true
+		eng.Instrs(fn, false, func(in ssa.Instruction) {
+			ph, ok := in.(*ssa.Phi)
+			if !ok || !isLoopCarried(ph) {
+				return
+			}
+			if b, ok := ph.Type().Underlying().(*types.Basic); !ok || b.Kind() != types.Int {
+				return
+			}
+			two := false
+			// the amounts the variable grows by per trip, through the joins of the loop body
+			var steps func(v ssa.Value, add int64, depth int)
+			seenStep := map[ssa.Value]bool{}
+			steps = func(v ssa.Value, add int64, depth int) {
+				if depth > 8 {
+					evenSteps = false
+					return
+				}
+				if v == ssa.Value(ph) {
+					if add == 2 {
+						two = true
+					}
+					if add%2 != 0 {
+						evenSteps = false
+					}
+					return
+				}
+				switch x := v.(type) {
+				case *ssa.BinOp:
+					if k, isC := eng.ConstInt(x.Y); isC && x.Op == token.ADD {
+						steps(x.X, add+k, depth+1)
+						return
+					}
+				case *ssa.Phi:
+					if seenStep[x] {
+						return
+					}
+					seenStep[x] = true
+					for _, e := range x.Edges {
+						steps(e, add, depth+1)
+					}
+					return
+				case *ssa.Const:
+					return // the initial value
+				}
+				evenSteps = false
+			}
+			for _, e := range ph.Edges {
+				steps(e, 0, 0)
+			}
+			if two && cursor == nil {
+				cursor = ph
+			}
+		})
+		if cursor == nil {
+			continue
+		}
+		startsEven := false
+		for i, e := range cursor.Edges {
+			_ = i
+			if k, isC := eng.ConstInt(e); isC && k%2 == 0 {
+				startsEven = true
+			}
+		}
+		// the input was brought to an even length: a test of len(data)%2 whose odd side grows or cuts the slice
+		evenLen := false
+		eng.Instrs(fn, false, func(in ssa.Instruction) {
+			b, ok := in.(*ssa.BinOp)
+			if !ok || b.Op != token.REM {
+				return
+			}
+			if k, isC := eng.ConstInt(b.Y); !isC || k != 2 {
+				return
+			}
+			if call, ok := b.X.(*ssa.Call); ok && eng.CalleeName(call) == "builtin:len" && isData(call.Call.Args[0]) {
+				// some value of the slice other than the parameter itself is in use (the padded or cut one)
+				eng.Instrs(fn, false, func(i2 ssa.Instruction) {
+					switch y := i2.(type) {
+					case *ssa.Call:
+						if eng.CalleeName(y) == "builtin:append" && y.Call.Args[0] == ssa.Value(data) {
+							evenLen = true
+						}
+					case *ssa.Slice:
+						if y.X == ssa.Value(data) && y.High != nil {
+							evenLen = true
+						}
+					}
+				})
+			}
+		})
+		leaf := func(v ssa.Value) (*eng.Poly, bool) {
+			if v == ssa.Value(cursor) {
+				return eng.PSym("i"), true
+			}
+			if call, ok := v.(*ssa.Call); ok && eng.CalleeName(call) == "builtin:len" && isData(call.Call.Args[0]) {
+				return eng.PSym("len"), true
+			}
+			return nil, false
+		}
+		n := 0
+		eng.Instrs(fn, false, func(in ssa.Instruction) {
+			ia, ok := in.(*ssa.IndexAddr)
+			if !ok || !isData(ia.X) {
+				return
+			}
+			p, ok := eng.IntPoly(ia.Index, leaf)
+			if !ok {
+				return
+			}
+			r, isC := p.Sub(eng.PSym("i")).IsConst()
+			if !isC || !r.IsInt() {
+				return
+			}
+			k := r.Num().Int64()
+			n++
+			// the strongest i+c < len on every path here
+			best := int64(-1)
+			for cand := int64(8); cand >= 0; cand-- {
+				cc := cand
+				if eng.GuardedBy(fn, ia.Block(), func(f eng.Fact) bool {
+					op, x, y, ok := f.Cmp()
+					if !ok {
+						return false
+					}
+					px, okx := eng.IntPoly(x, leaf)
+					py, oky := eng.IntPoly(y, leaf)
+					if !okx || !oky {
+						return false
+					}
+					d := px.Sub(py).Sub(eng.PSym("i")).Add(eng.PSym("len"))
+					rr, isC := d.IsConst()
+					flip := false
+					if !isC {
+						d = px.Sub(py).Add(eng.PSym("i")).Sub(eng.PSym("len"))
+						rr, isC = d.IsConst()
+						flip = true
+					}
+					if !isC || !rr.IsInt() {
+						return false
+					}
+					ab := rr.Num().Int64()
+					if flip {
+						ab = -ab
+						op = eng.Swap(op)
+					}
+					switch op {
+					case token.LSS:
+						return ab >= cc
+					case token.LEQ:
+						return ab-1 >= cc
+					}
+					return false
+				}) {
+					best = cand
+					break
+				}
+			}
+			ok2 := best >= k || (evenLen && evenSteps && startsEven && k%2 == 1 && best >= k-1 && best%2 == 0)
+			c.Check(ok2, R, fmt.Sprintf("%s#data[i+%d]#%d", eng.FuncName(fn), k, n), ia.Pos(), fmt.Sprintf("i+%d < len(data) follows (tested: i+%d, even length: %v)", k, best, evenLen), fmt.Sprintf("data[i+%d] is read where only i+%d < len(data) is established and the input is not known to have even length: input that ends in the middle of a code unit (odd length) is read past the end (index out of range)", k, best))
+		})
+	}
+}
